@@ -43,10 +43,49 @@ def run_closure(prog, cls, flag):
     normal = [w for d, ip, w in worlds if ip is not None]
     if len(normal) == 1:
         return normal[0]
+    if len(normal) > 1:
+        w = _generic_world(worlds)
+        if w is not None:
+            return w
     if not normal:
         raised = [w for d, ip, w in worlds if ip is None]
         raise raised[0] if raised else Unsupported('calculate has no analysable path')
     raise Unsupported('calculate has %d data-dependent normally returning paths' % len(normal))
+
+
+def reduction_facts(ip, dec):
+    """(facts, generic, only_reductions) of one explored path.  A decision on a whole-grid reduction of a mask (`mask.all()`,
+    `mask.any()`) implies a pointwise fact when it is all(c)=True (c everywhere) or any(c)=False (c nowhere); the path on
+    which every all() is False and every any() is True is the generic grid, with points on both sides of every mask."""
+    facts, generic, only = [], True, True
+    for c, taken, _ in dec:
+        red = ip.reduce_flags.get(c.t[1]) if c.t[0] == 'flag' else None
+        if red is None:
+            only = False
+            continue
+        kind, cond = red
+        if (kind == 'all') == bool(taken):
+            generic = False
+            facts.append((cond, kind == 'all'))
+    return facts, generic, only
+
+
+def _generic_world(worlds):
+    """paths that differ only in whole-grid reductions of a mask: the pointwise analysis describes the generic grid; the
+    others are degenerate grids, kept as `special` worlds together with the pointwise facts their decisions imply"""
+    generic, special = [], []
+    for d, ip, w in worlds:
+        if ip is None:
+            continue
+        facts, is_generic, only = reduction_facts(ip, d)
+        if not only:
+            return None
+        (generic if is_generic else special).append((facts, d, w))
+    if len(generic) == 1:
+        w = generic[0][2]
+        w['special'] = special
+        return w
+    return None
 
 
 UINF = N.sym('uinf')
@@ -253,6 +292,16 @@ def rule_definition(ctx, rule='R09.d'):
                 continue
             n += 1
             out = at('gt', cases[0])
+            sp_bad = []
+            for facts, dec, ws in w.get('special', ()):
+                ts = ws['res'].t if isinstance(ws['res'], (Arr, Num)) else None
+                if ts is None or P.compare(P.assume(ts, facts), P.assume(term, facts))[0]:
+                    sp_bad.append('on a grid where %s calculate returns %s, the generic path gives %s there' % (
+                        ', '.join('%s is %s' % (c.show(), b_) for c, b_, _ in dec), P.show(ts)[:100] if ts is not None else ws['res'],
+                        P.show(P.assume(term, facts))[:100]))
+            if sp_bad:
+                ctx.violation(rule, cname, 'definition:degenerate-grid:flag=%s' % flag, 'apply_hard_core=%s: %s' % (flag, sp_bad[0]), f.loc())
+                continue
             if refs is None:
                 ctx.holds(rule, cname, 'apply_hard_core=%s: no reference relation for this closure in '
                           'spec/closures.py; generic rules only (extracted: %s)' % (flag, N.show(out)),
@@ -348,6 +397,8 @@ def rule_core_infinite(ctx, rule='R03.i'):
         try:
             worlds = explore(lambda preset: _run_closure(ctx.prog, dcls, True, preset, inf_core=True), keep_raised=True)
             normal = [w for d, ip, w in worlds if ip is not None]
+            if len(normal) > 1 and _generic_world(worlds) is not None:
+                normal = [_generic_world(worlds)]
             if len(normal) != 1:
                 raise Unsupported('calculate has %d normally returning paths with a divergent core' % len(normal))
             term = normal[0]['res'].t
@@ -588,21 +639,25 @@ def rule_elementwise(ctx, rule='R09.e'):
 INPUT_ATTRS = ('self.potential', 'self.sigma', 'self.apply_hard_core')
 
 
-def run_twice(prog, cls, flag, preset=(), feedback=False):
-    """two consecutive evaluations of the same closure object with *different* symbolic potential and gamma"""
+def run_twice(prog, cls, flag, preset=(), feedback=False, grid=False):
+    """two consecutive evaluations of the same closure object with *different* symbolic potential and gamma.
+    grid=True: the first evaluation is on another grid with the same number of points and the same contact distance (the
+    object was evaluated by hand, or belonged to a system with another spacing, before this solve)"""
     ip = Interp(prog)
     ip.preset = list(preset)
     for s_, k in (('u', 'curve'), ('g', 'curve'), ('r', 'curve'), ('sigma', 'scalar'), ('u1', 'curve'), ('g1', 'curve'),
-                  ('sigma1', 'scalar')):
+                  ('sigma1', 'scalar')) + ((('r1', 'curve'),) if grid else ()):
         ip.declare(s_, k)
+    if grid:
+        ip.len_alias = {'g': 'r', 'u': 'r', 'g1': 'r', 'u1': 'r', 'r1': 'r'}
     o = ip.construct(cls, [], {'apply_hard_core': Const(flag)})
     o.origin = 'self'
-    o.attrs['sigma'] = Num(N.sym('sigma1'))     # the contact distance of the first evaluation (before a diameter edit)
+    o.attrs['sigma'] = Num(S if grid else N.sym('sigma1'))     # the contact distance of the first evaluation (before a diameter edit)
     r = Arr(R, 'r', ip)
     m = ip.find_method(o, 'calculate')
     # first call: (u1, g1)
     o.attrs['potential'] = Arr(N.sym('u1'), 'self.potential', ip)
-    res1 = ip.call(m, [r, Arr(N.sym('g1'), 'gamma', ip)], {})
+    res1 = ip.call(m, [Arr(N.sym('r1'), 'r_other', ip) if grid else r, Arr(N.sym('g1'), 'gamma', ip)], {})
     t1 = res1.t if isinstance(res1, (Arr, Num)) else None
     # the user (or PRISM.__init__ of a re-created object) installs another potential, the solver another gamma
     o.attrs['potential'] = Arr(U, 'self.potential', ip)
@@ -679,6 +734,7 @@ def rule_history(ctx, rule='R09.h', aliasing=True):
                 worlds = explore(lambda preset: run_twice(ctx.prog, dcls, flag, preset))
                 worlds += explore(lambda preset: run_copy(ctx.prog, dcls, flag, preset))
                 worlds += explore(lambda preset: run_other_grid(ctx.prog, dcls, flag, preset))
+                worlds += explore(lambda preset: run_twice(ctx.prog, dcls, flag, preset, grid=True))
                 if aliasing:
                     worlds += explore(lambda preset: run_twice(ctx.prog, dcls, flag, preset, feedback=True))
             except (Unsupported, Raised) as e:
@@ -695,6 +751,11 @@ def rule_history(ctx, rule='R09.h', aliasing=True):
                 if t2 is None:
                     bad.append('second evaluation does not return an array term' + where)
                     continue
+                # on a path where the code itself compared an earlier input with the current one and found them equal
+                # (a cache key), the two are the same value: compare under that equality
+                eqs = P.equalities(dec)
+                facts = reduction_facts(ip, dec)[0]
+                t2 = P.assume(P.subs(t2, eqs), facts)
                 if w['feedback']:
                     # gamma (the array the caller got from the first call) must not be written by the second call
                     if w['res'] is w['garr']:
@@ -713,7 +774,7 @@ def rule_history(ctx, rule='R09.h', aliasing=True):
                     if isinstance(r1, Arr) and w['t1'] is not None and not P.compare(r1.t, w['t1'])[0] == []:
                         bad.append('the array returned by the first evaluation changes during the second' + where)
                         continue
-                diffs, _ = P.compare(t2, ft)
+                diffs, _ = P.compare(t2, P.assume(P.subs(ft, eqs), facts))
                 if diffs:
                     v, lx, ly = diffs[0]
                     bad.append('second evaluation returns %s where a fresh closure returns %s%s: the value depends on an '
@@ -723,7 +784,7 @@ def rule_history(ctx, rule='R09.h', aliasing=True):
                     fv = fresh['obj'].attrs.get(a)
                     if isinstance(v, (Arr, Num)) and isinstance(fv, (Arr, Num)):
                         try:
-                            d2, _ = P.compare(v.t, fv.t)
+                            d2, _ = P.compare(P.assume(P.subs(v.t, eqs), facts), P.assume(P.subs(fv.t, eqs), facts))
                         except Exception:
                             d2 = [1]
                         if d2:
@@ -761,7 +822,11 @@ def rule_flag_reassigned(ctx, rule='R09.f'):
                     res = ip.call(ip.find_method(o, 'calculate'), [Arr(R, 'r', ip), Arr(G, 'gamma', ip)], {})
                     return ip, {'res': res}
                 from ..interp import explore
-                worlds = [w for d, ip, w in explore(run, keep_raised=True) if ip is not None]
+                worlds = []
+                for d, ip, w in explore(run, keep_raised=True):
+                    if ip is not None:
+                        w['facts'] = reduction_facts(ip, d)[0]
+                        worlds.append(w)
             except (Unsupported, Raised) as e:
                 ctx.undecided(rule, cname, 'apply_hard_core:=%s after construction: %s' % (flag, e), f.loc())
                 continue
@@ -769,7 +834,7 @@ def rule_flag_reassigned(ctx, rule='R09.f'):
             bad = None
             for w in worlds:
                 t = w['res'].t if isinstance(w['res'], (Arr, Num)) else None
-                if t is None or P.compare(t, want)[0]:
+                if t is None or P.compare(P.assume(t, w['facts']), P.assume(want, w['facts']))[0]:
                     bad = 'setting apply_hard_core = %s on a closure constructed with %s is ignored or mis-applied: calculate returns %s, ' \
                           'a closure constructed with the flag returns %s' % (flag, not flag, P.show(t)[:120] if t is not None else w['res'], P.show(want)[:120])
             if not worlds:
@@ -804,7 +869,18 @@ def rule_purity(ctx, rule='R09.p'):
                 continue
             n += 1
             bad = []
-            for e in w['events']:
+            tagged = [('', e) for e in w['events']]
+            for facts, dec, ws in w.get('special', ()):
+                where = ' (on a grid where %s)' % ', '.join('%s is %s' % (c.show(), b_) for c, b_, _ in dec)
+                tagged += [(where, e) for e in ws['events']]
+                for nm, a in ws['inputs'].items():
+                    if ws['res'] is a or (hasattr(ws['res'], 'base') and ws['res'].base is a):
+                        bad.append('returned array is %s itself%s' % (nm, where))
+            for where, e in tagged:
+                if where:
+                    if e['kind'] == 'write':
+                        bad.append('in-place write to %s at %s (%s)%s' % (e['target'], e['loc'], e.get('via'), where))
+                    continue
                 if e['kind'] == 'write':
                     bad.append('in-place write to %s at %s (%s)' % (e['target'], e['loc'], e.get('via')))
                 elif e['kind'] == 'bind' and e['target'] in INPUT_ATTRS:
